@@ -1,0 +1,97 @@
+//! Verification hooks (only compiled with the `verif-hooks` feature).
+//!
+//! Drives the [`Tui`] without a terminal: key events are injected into a
+//! queue that [`Events`](super::events::Events) consults instead of the real
+//! terminal, the interface is drawn into a [`TestBackend`] of a given size and
+//! the wall-clock auto-run slice is replaced by a fixed number of clock edges.
+use crossterm::event::{Event, KeyEvent};
+use emulator_2a_lib::machine::Machine;
+use tui::{backend::TestBackend, Terminal};
+
+use std::{cell::RefCell, collections::VecDeque};
+
+use super::{interface::Interface, Part, Tui};
+
+thread_local! {
+    static INJECTED: RefCell<VecDeque<Event>> = RefCell::new(VecDeque::new());
+}
+
+/// Take the next injected event, if any.
+pub fn pop_injected() -> Option<Event> {
+    INJECTED.with(|q| q.borrow_mut().pop_front())
+}
+
+/// Queue a key event for the [`Tui`] running on this thread.
+pub fn push_injected(key: KeyEvent) {
+    INJECTED.with(|q| q.borrow_mut().push_back(Event::Key(key)))
+}
+
+/// What can be observed after one step of the main loop.
+#[derive(Debug, Clone)]
+pub struct StepReport {
+    /// The session asked to quit.
+    pub quit: bool,
+    /// Text of the notification currently shown, if any.
+    pub notification: Option<String>,
+    /// Current content of the input field.
+    pub input: String,
+    /// Cursor position inside the input field (in characters).
+    pub cursor: usize,
+    /// Number of cells of the drawn frame.
+    pub drawn_cells: usize,
+}
+
+impl Tui {
+    /// One iteration of the main loop of [`Tui::run`]: maintain, handle the
+    /// (injected) event, draw into a test backend of the given size, then the
+    /// auto-run slice with a fixed number of clock edges.
+    pub fn verif_step(
+        &mut self,
+        key: Option<KeyEvent>,
+        width: u16,
+        height: u16,
+        autorun_cycles: usize,
+    ) -> StepReport {
+        if let Some(key) = key {
+            push_injected(key);
+        }
+        self.maintain();
+        let quit = self.handle_event();
+        let mut drawn_cells = 0;
+        if !quit {
+            let backend = TestBackend::new(width, height);
+            let mut terminal = Terminal::new(backend).expect("test backend");
+            terminal
+                .draw(|mut f| {
+                    let area = f.size();
+                    f.render_stateful_widget(Interface, area, self);
+                })
+                .expect("drawing into the test backend");
+            drawn_cells = terminal.backend().buffer().content.len();
+            if self.machine.auto_run_mode {
+                for _ in 0..autorun_cycles {
+                    self.machine.trigger_key_clock();
+                }
+            }
+        }
+        StepReport {
+            quit,
+            notification: self.notification_state.current.clone(),
+            input: self.input_field.current().iter().collect(),
+            cursor: self.input_field.verif_cursor(),
+            drawn_cells,
+        }
+    }
+    /// The emulated machine.
+    pub fn verif_machine(&self) -> &Machine {
+        &self.machine.machine
+    }
+    /// Is the auto-run mode active?
+    pub fn verif_auto_run(&self) -> bool {
+        self.machine.auto_run_mode
+    }
+    /// Is the memory view selected (instead of the register block)?
+    pub fn verif_shows_memory(&self) -> bool {
+        self.machine.part == Part::Memory
+    }
+}
